@@ -450,8 +450,17 @@ class Explorer(object):
             self._nbranch += 1
             self._trace.append(('b', cond, taken, True))
             return taken
-        # new decision: is it implied by what we know?  try True first.
-        st = self._feasible(self._pc_terms() + [cond])
+        # new decision: is it implied by what we know?  the linear abstraction settles order-chain consequences at once
+        pcs = self._pc_terms()
+        for check in (self._abstractly_unsat, self._relaxed_unsat):
+            for val in (True, False):
+                if check(pcs + [T.lnot(cond) if val else cond]):
+                    self.stats['cheaply_implied'] = self.stats.get('cheaply_implied', 0) + 1
+                    self._nbranch += 1
+                    self._trace.append(('b', cond, val, True))
+                    return val
+        # try True first.
+        st = self._feasible(pcs + [cond])
         if st == 'unsat':
             taken = False
             explored_other = True       # True branch infeasible: nothing to flip
@@ -489,8 +498,100 @@ class Explorer(object):
                 out.append(k[1])
         return out
 
+    # -- linear abstraction: every non-linear subterm is an opaque real (same term, same variable).  Unsatisfiable in the
+    # abstraction => unsatisfiable.  Settles the order-chain consequences (a < b, b < c |- a < c over compound terms) that
+    # nlsat spends seconds on; anything else falls through to the exact query.
+    def _abs(self, t):
+        c = self.__dict__.setdefault('_abs_cache', {})
+        r = c.get(t)
+        if r is not None:
+            return r
+        op, a = t.op, t.args
+        A = self._abs
+        if op == 'const':
+            v = Fraction(a[0])
+            r = z3.RealVal('%d/%d' % (v.numerator, v.denominator))
+        elif op == 'var':
+            r = z3.Real('v!' + a[0])
+        elif op == 'bvar':
+            r = z3.Bool('b!' + a[0])
+        elif op == 'add':
+            r = A(a[0]) + A(a[1])
+        elif op == 'sub':
+            r = A(a[0]) - A(a[1])
+        elif op == 'neg':
+            r = -A(a[0])
+        elif op == 'mul' and (a[0].op == 'const' or a[1].op == 'const'):
+            r = A(a[0]) * A(a[1])
+        elif op == 'div' and a[1].op == 'const' and a[1].args[0] != 0:
+            r = A(a[0]) / A(a[1])
+        elif op == 'abs':
+            x = A(a[0])
+            r = z3.If(x >= 0, x, -x)
+        elif op == 'ite':
+            r = z3.If(A(a[0]), A(a[1]), A(a[2]))
+        elif op == 'lt':
+            r = A(a[0]) < A(a[1])
+        elif op == 'le':
+            r = A(a[0]) <= A(a[1])
+        elif op == 'eq':
+            r = A(a[0]) == A(a[1])
+        elif op == 'not':
+            r = z3.Not(A(a[0]))
+        elif op == 'and':
+            r = z3.And(*[A(x) for x in a])
+        elif op == 'or':
+            r = z3.Or(*[A(x) for x in a])
+        elif op == 'true':
+            r = z3.BoolVal(True)
+        elif op == 'false':
+            r = z3.BoolVal(False)
+        elif T.is_bool(t):
+            r = z3.Bool('ob!%d' % t.id)
+        else:
+            r = z3.Real('o!%d' % t.id)
+        c[t] = r
+        return r
+
+    def _abstractly_unsat(self, terms):
+        try:
+            s = z3.Solver()
+            s.set('timeout', 1000)
+            for t in self.domain + terms:
+                s.add(self._abs(t))
+            return str(s.check()) == 'unsat'
+        except Exception:
+            return False
+
+    def _relaxed_unsat(self, terms):
+        """exact query without the equations (stub contracts f(x*) = 0 and the like): an over-approximation that keeps the
+        inequalities, for paths whose equations stall nlsat"""
+        keep = [t for t in terms if t.op != 'eq']
+        if len(keep) == len(terms):
+            return False
+        enc = self.enc
+        try:
+            s = z3.Solver()
+            s.set('timeout', 1500)
+            for t in self.domain + keep:
+                s.add(enc.tr(t))
+                s.add(enc.defined(t))
+            for ax in enc.axioms:
+                s.add(ax)
+            return str(s.check()) == 'unsat'
+        except Exception:
+            return False
+
+    def _over_unsat(self, terms):
+        return self._abstractly_unsat(terms) or self._relaxed_unsat(terms)
+
     def _feasible(self, terms):
         t0 = time.time()
+        if self._over_unsat(terms):
+            self.stats['branch_queries'] += 1
+            self.stats['abstract_unsat'] = self.stats.get('abstract_unsat', 0) + 1
+            self.stats['branch_time'] += time.time() - t0
+            return 'unsat'
         s = z3.Solver()
         s.set('timeout', int(self.branch_timeout_s * 1000))
         enc = self.enc
